@@ -191,28 +191,33 @@ CHECKS["C17"] = dict(
 
 CHECKS["C02"] = dict(
     category="translation_validation",
-    text=("PROVED in Coq for all inputs (Props/C02.v, 10 theorems; real-number axioms only): every collider shape expression denotes a convex "
-          "set (cones = hull of apex and base disk); para_cert (8 exact corners p+-w1+-w2+-w3 of a parallelepiped certified as members) and "
-          "Deep.deep_cert (last Minkowski summand a ball) each imply that the ball of radius delta around p lies in the collider; overlap_cert "
-          "= true => p is >= delta inside both colliders, so they intersect; gap_cert = true => all point pairs are >= delta apart; no pair "
-          "carries both certificates (C02_classes_disjoint). Exit soundness over the reals, for ARBITRARY sets given through support points: "
-          "the separating-axis exit of the Jolt boolean loop model, the libccd exit dot(w,dir) < -sqrt(eps) and the MPR refinement exit `not "
-          "_encapsulates_origin` each prove disjointness; every False of MPR portal discovery bounds the overlap along the search direction by "
-          "eps. JUDGED PER GENERATED INPUT only: for each pair whose certificate evaluates to true inside coqc (exact rationals of the "
-          "constructor floats, untrusted witnesses), gjk_intersection_jolt, gjk_intersection_libccd, mpr_intersection, "
-          "gjk_nesterov_accelerated_intersection (and the primitives variant on its accepted kinds) must answer True (overlap class) / False "
-          "(gap class) and gjk_distance_jolt must give d <= 1e-5 L / d >= delta - 1e-5 L; pairs without certificate (band, flat shapes in the "
-          "overlap class) are not judged and counted; all boolean tests run twice plus a distance query on ONE pair of objects, the colliders' "
-          "numeric state compared before / after every query. Universality over inputs comes from generation (all 100 ordered kind pairs x "
-          "depth / gap in {1.5, 4, 100} delta, 25 primitive pairs, Margin wrappers, identical, nested, touching, random / lattice streams). TIE "
-          "to the code beyond the answers, every run: Gallina models of gjk_intersection_libccd and mpr_intersection (Model/GjkLibccd.v) and of "
-          "the Jolt loop (Model/JoltLoop.v) replay in binary64 inside coqc the support traces recorded from the implementation: every search "
+    text=("PROVED in Coq for all inputs (Props/C02.v, 10 theorems + 2 non-vacuity examples; real-number axioms only): every collider shape "
+          "expression denotes a convex set (C02_shapes_convex; cones = hull of apex and base disk); para_cert (8 exact corners p+-w1+-w2+-w3 "
+          "certified as members + delta^2 |wi x wj|^2 <= det^2) and Deep.deep_cert (last Minkowski summand a ball) each imply that the ball "
+          "of radius delta around p lies in the collider; overlap_cert = true => p is >= delta inside both colliders and they intersect; "
+          "gap_cert = true => all point pairs are >= delta apart and the colliders are disjoint; no pair carries both certificates "
+          "(C02_classes_disjoint). Exit soundness over the reals, for ARBITRARY sets given through support points: the separating-axis exit "
+          "of the Jolt boolean loop model (C02_separating_axis_exit_sound), the libccd exit dot(w,dir) < -sqrt(eps) "
+          "(C02_libccd_before_origin_exit_sound) and the MPR refinement exit `not _encapsulates_origin` "
+          "(C02_mpr_refine_not_encapsulated_exit_sound) each prove disjointness; every False of MPR portal discovery proves that the overlap "
+          "along the search direction is below eps (C02_mpr_discovery_false_exits_bound). JUDGED PER GENERATED INPUT only: for each pair whose "
+          "certificate evaluates to true inside coqc (exact rationals of the floats given to the constructors, witnesses untrusted), "
+          "gjk_intersection_jolt, gjk_intersection_libccd, mpr_intersection, gjk_nesterov_accelerated_intersection (and the "
+          "..._primitives_intersection variant on unwrapped sphere / capsule / box / ellipsoid / cylinder) must answer True (overlap class) / "
+          "False (gap class) and gjk_distance_jolt must give d <= 1e-5 L / d >= delta - 1e-5 L; pairs without certificate (band, flat shapes "
+          "in the overlap class) are not judged and counted; all boolean tests run twice plus a distance query on ONE pair of collider "
+          "objects, the numeric state of both colliders compared before / after every query. Universality over inputs comes from generation "
+          "(all 100 ordered kind pairs x depth / gap in {1.5, 4, 100} delta with TRUE distance = gap, 25 primitive pairs, Margin wrappers, "
+          "identical, nested, touching pairs - inside the band, never judged -, random / lattice / moderate / wide streams). TIE to the code "
+          "beyond the answers, every run: Gallina models of gjk_intersection_libccd and mpr_intersection (Model/GjkLibccd.v; follows /repo "
+          "commit fdadc7f: start_discover really swaps portal rows 1 and 2) and of the Jolt boolean loop (the lead's Model/JoltLoop.v, the "
+          "loop as it is since 3066ace) replay in binary64 inside coqc the support traces recorded from the implementation: every search "
           "direction, iteration count and answer must agree; differences are looked at a second time under few-ulp perturbations (near-ties "
-          "excused and counted). NOT proved: termination, the True exits, and the accuracy of any of the five algorithms in floating point; the "
-          "Nesterov boolean test has no model here (C09 replays that loop); njit division by zero (ZeroDivisionError) has no outcome in the "
-          "models. Known findings: none."),
+          "excused and counted). NOT proved: anything else about the five algorithms themselves - termination, the True exits, accuracy in "
+          "floating point; the Nesterov boolean test has no model here (C09 replays that loop); njit division by zero (ZeroDivisionError) has "
+          "no outcome in the models. Known findings: none."),
     design_ref="DESIGN.md section 5, C02; section 2.3",
-    technique="Coq-proven ground-truth certificates (ball-in-collider by convexity, separating direction) evaluated by vm_compute + Coq exit-soundness theorems + trace-replay correspondence of Gallina loop models",
+    technique="Coq-proven ground-truth certificates (ball-in-collider via convexity + exact parallelepiped corners / shrunk last ball; separating direction with rational sqrt upper bounds) evaluated by vm_compute on exact rationals, the five boolean functions of /repo judged against them + Coq exit-soundness theorems (Jolt / libccd / MPR) + trace-replay correspondence of Gallina loop models",
     note=TB + "; " + RA + "; harness/narrow.py parts()/sh_expr (collider -> shape expression) is trusted; harness/narrow_bool.py only constructs untrusted witnesses",
 )
 CHECKS["C06"] = dict(
@@ -426,55 +431,96 @@ CHECKS["C15"] = dict(
 
 CHECKS["C09"] = dict(
     category="translation_validation",
-    text=("PROVED in Coq for all inputs (Props/C09.v, 8 theorems; real-number axioms only): (1) the collider-TYPE DISPATCH of "
-          "gjk_nesterov_accelerated (Model/Nesterov.v: _has_specialized_support, select_support's found flag, which radii enter `inflation`, "
-          "every exit through one `finish` function incl. the cap exit of b028d6b, the max(.,0) wrapper) is consistent for EVERY pair of the 11 "
-          "collider classes (C09_dispatch_table, 121 type pairs): each collider equals the set handed to the loop inflated by its share of "
-          "`inflation` (C09_nesterov_inflation_consistent), hence IF the loop converges to the true distance of the sets it was given THEN the "
-          "wrapper returns the true distance of the original pair (C09_nesterov_distance_exact_if_loop_exact: conditional, uses the converged "
-          "exit only); the well-formedness hypotheses hold for the Spec sphere and capsule sets (C09_sphere_wf, C09_capsule_wf; box / ellipsoid "
-          "/ cylinder inflate factors stay abstract); the logic before commit 4366de3 (F3) is REFUTED with a witness (sphere vs one-vertex "
-          "hull: 3 instead of 4). (2) Soundness of the two result certificates: dist_cert (a, b within tau of their colliders, ||a-b|-d| <= "
-          "tau, no pair closer than d - tau) and dist_values_cert (certified enclosure [lo,up] of the true distance from two untrusted member "
-          "witnesses and one untrusted direction). NOT proved: convergence / accuracy of the Frank-Wolfe loop, Johnson's sub-algorithm of the "
-          "original GJK, the specialised support functions. TIED TO THE CODE on every run: Model/NesterovLoop.v (whole loop: momentum branches, "
-          "duality-gap / convergence / cap exits, zero-direction fallback 41496a5, the three projections with all 43 tetrahedron leaves) is (a) "
-          "replayed in binary64 inside coqc on the support pairs recorded from gjk_nesterov_accelerated (every direction, pass count, contact "
-          "flag, distance to 1e-9), (b) RUN as a full executable model of gjk_nesterov_accelerated_primitives, (c) compared per routine with "
-          "both modules' projections on simplices directed at every reachable leaf (42 of 43); near-ties (the model's own discrete outcome "
-          "changes under 1-10 ulp perturbations) are excused and counted. JUDGED PER GENERATED INPUT only: gjk_distance_original by dist_cert "
-          "at tau = 1e-3 L; the Nesterov family with / without acceleration, the *_distance wrappers and the three primitives analogues by "
-          "dist_values_cert; iteration helpers == main entry; all 100 ordered kind pairs at prescribed true distances and overlapping, mixed "
-          "specialised / generic pairs incl. Margin wrappers, needle / plate, exact-lattice and big-face streams. Known findings: none."),
+    text=("PROVED in Coq for all inputs (Props/C09.v, 10 theorems + 3 non-vacuity examples; real-number axioms only): (1) the collider-TYPE "
+          "DISPATCH of gjk_nesterov_accelerated (Model/Nesterov.v: _has_specialized_support, select_support's found flag, which radii enter "
+          "`inflation`, the exits that assign `distance` - `finish` is the single definition of all exits, EMaxIter = the cap exit of b028d6b, "
+          "EDuplicate = the repeated-vertex exit of 6f5b38a -, the max(.,0) wrapper) is consistent for EVERY pair of the 11 collider classes "
+          "(C09_dispatch_table, 121 type pairs): each collider equals the set handed to the loop inflated by its share of `inflation` "
+          "(C09_nesterov_inflation_consistent), hence IF the loop converges to the true distance of the sets it was given THEN the wrapper "
+          "returns the true distance of the original pair (C09_nesterov_distance_exact_if_loop_exact, via dist(S+B(r0),T+B(r1)) = "
+          "max(dist(S,T)-r0-r1,0); conditional, speaks about the converged exit only); the hypotheses hold for the Spec/Shapes sphere and "
+          "capsule sets (C09_sphere_wf, C09_capsule_wf); the logic before commit 4366de3 (F3) is REFUTED (C09_nesterov_inflation_old_refuted: "
+          "unit sphere vs one-vertex hull returns 3, truth 4). (2) For the loop model (Model/NesterovLoop.v, which uses the same `finish`; "
+          "over the reals, arbitrary set D given through the support pair of a pass): the early exit `omega > upper_bound` returns a lower "
+          "bound of the distance of D (C09_nesterov_omega_exit_sound); PARTIAL: at the convergence exit the returned ray_len is within the "
+          "relative tolerance of the distance of D GIVEN the two loop invariants - the current ray is a point of D of norm ray_len, alpha is a "
+          "lower bound - whose preservation by the simplex projections is NOT proved (C09_nesterov_converged_exit_partial, with a concrete run "
+          "as non-vacuity, C09_loop_exit_nonvacuous). (3) Soundness of the two result certificates: dist_cert "
+          "(C09_original_result_certificate_sound, for gjk_distance_original: a, b within tau of their colliders, ||a-b|-d| <= tau, no pair "
+          "closer than d - tau) and dist_values_cert (C09_value_certificate_sound: certified enclosure [lo,up] of the true distance from two "
+          "untrusted member witnesses and one untrusted direction; every judged value within tau + (up-lo) of ANY g that is the distance). NOT "
+          "proved: convergence / accuracy of the Frank-Wolfe loop and of Johnson's sub-algorithm (abstracted), the specialised support "
+          "functions (box / ellipsoid / cylinder inflate factors abstracted in wf). TIED TO THE CODE on every run: Model/NesterovLoop.v (the "
+          "whole loop: momentum branches, duality-gap and convergence exits, cap exit b028d6b, zero-direction fallback 41496a5, acceleration "
+          "cut-off at max_interations // 4 (6bd22f2), repeated-support-vertex exit (6f5b38a), project_line / triangle / tetra_to_origin with "
+          "all 46 leaves of the tree as repaired by e324618) is (a) replayed in binary64 inside coqc on the support pairs recorded from "
+          "gjk_nesterov_accelerated, with `inflation` computed by the model's dispatch (every direction, number of passes, contact, distance "
+          "to 1e-9, iteration count), (b) RUN as a full executable model of gjk_nesterov_accelerated_primitives (type-coded supports + loop) "
+          "from get_minkowski_diff's tuple, (c) compared function by function with both modules' three projection routines on simplices "
+          "directed at every reachable leaf of the tetrahedron tree (45 of 46; rewritten rows exactly); near-ties (the model's own discrete "
+          "outcome changes under 1-10 ulp input perturbation) are excused and counted. JUDGED PER GENERATED INPUT only: gjk_distance_original "
+          "by dist_cert at tau = 1e-3 L; gjk_nesterov_accelerated with / without acceleration, gjk_nesterov_accelerated_distance and the three "
+          "*_primitives analogues by dist_values_cert (accepted within 1.02e-3 L; where gjk_distance_jolt's witnesses do not certify an "
+          "enclosure - class of F-J2 - the original's or the construction's witnesses are used and the pair is printed as a note); iteration "
+          "helpers == main entry. Generation: all 100 ordered kind pairs at TRUE distances {1e-6..100} and overlapping, every mixed "
+          "specialised / generic pair incl. Margin-wrapped primitives (F3), 25 primitive pairs, needle / plate colliders (aspect 1e4; F-N1), "
+          "exact lattice placements with parallel faces / shared axes (backup procedure of the original GJK), small smooth colliders in front "
+          "of a big hull face (bigface; F-O1), general streams; a SEARCH stream in the class of F-N3 (moved_lattice: lattice scenes - cube "
+          "mesh / hull / box against flat ellipse / disk and the other kinds - at plane gaps +-1e-6 / +-1e-3 / 0 / 1e-9 / 0.1 under one "
+          "random rigid motion: 2400 quick / 24000 thorough candidates are run through gjk_distance_jolt and the two Nesterov settings only; "
+          "every candidate on which they differ by more than tau/2 or one raises, plus a sample of 40 / 400 others, becomes an ordinary case "
+          "judged by the Coq certificates with all operations - the search chooses what is judged, never the verdict); corpus = F-N1 (5), "
+          "F-N2 (6), F-N3 (13), F-N4 (3), F-N5 (2) regressions. INVARIANT MONITOR for the partial theorem (measured on the code, not a proof "
+          "of the invariants): on tetrahedra in GJK-reachable states (previous triangle projection interior, rows in the order "
+          "origin_to_triangle leaves, new vertex strictly improving) directed at every leaf of the tree, |ray| returned by "
+          "project_tetra_to_origin of BOTH modules must be the distance of the simplex from the origin, judged by dist_values_cert on "
+          "Hull(simplex) vs {0} at tau = 1e-6 * size (92 quick / ~700 thorough tetrahedra, 37-41 of the 46 leaves; on the tree before "
+          "e324618 it rejects all four wrong leaves). Known findings: none (F-N1 .. F-N5 and F-O1 are fixed in /repo and kept as corpus "
+          "regressions)."),
     design_ref="DESIGN.md section 5, C09",
-    technique="Coq proof of the Nesterov type dispatch (121 type pairs, F3 refuted) + Coq-proven result certificates (dist_cert, certified distance enclosure) evaluated by vm_compute on exact rationals + executable Gallina model of the Nesterov loop replayed/run in binary64 against the code",
+    technique="Coq proof of the Nesterov type dispatch (121 type pairs, F3 refuted) + Coq-proven result certificates (dist_cert, certified distance enclosure) evaluated by vm_compute on exact rationals of the implementations' outputs + executable Gallina model of the Nesterov loop replayed/run in binary64 against the code (traces, full primitives model, per-leaf unit correspondence of the simplex projections)",
     note=TB + "; " + RA + "; harness/narrow.py parts()/sh_expr/wit_expr (witnesses untrusted); harness/impl/narrowb*.py workers (recorders wrap module attributes of the worker process only); specialised supports of sphere/capsule modelled as core point/segment",
 )
 CHECKS["C19"] = dict(
     category="other",
-    text=("THEOREM (Props/C19.v, 6 theorems, for all inputs; every data-dependent test of a loop body is an arbitrary oracle in "
-          "Model/GjkCaps.v, so the bounds hold whatever geometry and floating point decide - a counting abstraction, not a model of the "
-          "computations): the capped loops terminate and make at most f(caps) support evaluations: gjk_intersection_libccd, epa, MPR portal "
-          "discovery, mpr_penetration's _find_penetration_info, both Nesterov loops (at most one `continue` each). TIE to the code: caps "
-          "(default arguments), the comparison operator of every cap test, evaluations per pass (loop body AND module-level callees, both call "
-          "forms), the pinned counters and the absence of a cap in _refine_portal are RE-READ from /repo on every run by a fail-closed ast "
-          "reader (harness/narrow_caps.py -> Gen/NarrowCaps.v) and f(declared caps) <= 1000 is re-proved (C19_default_caps_within_1000; today "
-          "200, 128, 204, 204+204, 258, 258). For the Jolt loop model over exact REALS (Model/JoltLoop.v; real-number axioms): the loop "
-          "continues only on a strict decrease of |v|^2 (C19_jolt_continues_only_on_strict_decrease) and, PARTIAL, never runs out of fuel if "
-          "the solver's values lie in a finite list (hypothesis not discharged; bound far above 1000). NOT A THEOREM: termination / the 1000 "
-          "bound of the `while True` loops of gjk_distance_jolt, gjk_intersection_jolt, gjk_distance_original and mpr._refine_portal in "
-          "floating point - C19_uncapped_loops_unbounded proves that their control structure admits any number of evaluations; liveness there "
-          "is MONITORED only. MONITORED PER GENERATED PAIR and entry point (all GJK flavours, boolean tests, Nesterov, MPR, EPA; "
-          "self_collision.detect / detect_any on small BVHs): support evaluations <= 1000 and <= the proven bound of the capped loops (counter "
-          "wrapping support_function); 20 s alarm per call (a timeout / dead worker is re-run alone with 120 s before it counts); every returned "
-          "number finite except the documented MAX_FLOAT clip; no exception except EPA's capacity assertion on smooth shapes - also "
-          "INTERPRETED (NUMBA_DISABLE_JIT=1) on a subset plus a batch of flat-ellipsoid primitive pairs through both accelerated Nesterov "
-          "loops. Streams: aspect ratios to 1e4, identical, nested, touching, zero-volume, lattice placements, big meshes with a small collider "
-          "in front of a face. F2-C19 is used only when, after a GJK exit with n_points < 4, a row of the simplex handed to EPA is "
-          "uninitialised memory (observed exactly). Known findings: F2-C19."),
+    text=("THEOREM (Props/C19.v, 6 theorems + 2 non-vacuity examples, for all inputs; every data-dependent test of a loop body is an arbitrary "
+          "oracle in Model/GjkCaps.v, so the bounds hold whatever geometry and floating point decide - a counting abstraction, not a model of "
+          "the computations): the capped loops terminate and make at most f(caps) support evaluations (C19_capped_loops_bounded): "
+          "gjk_intersection_libccd <= 2*pairs*max_iterations; epa <= evals_per_pass*max_iter; MPR portal discovery <= 2*pre + 2*cap_passes; "
+          "mpr_penetration's _find_penetration_info <= 2*pen_passes; both Nesterov loops <= 2*(max_interations+1) (at most one `continue` "
+          "ever: all three - duality gap, convergence test, repeated support vertex (6f5b38a) - switch the acceleration off, the cut-off of "
+          "6bd22f2 only switches it off, nothing switches it on). TIE to the code: caps (default arguments), the comparison operator of every "
+          "cap test, evaluations per pass (loop body AND module-level callees, both call forms; pinned counters), the continue structure "
+          "(every `continue` under `if use_nesterov_acceleration:` after `use_nesterov_acceleration = False`; the flag is never assigned "
+          "anything but False in the loop; the only other loop allowed inside is an inert `for k in range(..)` scan: no call, no break / "
+          "continue / return, assigns scratch names only) and the absence of a cap in _refine_portal (C19_refine_portal_is_uncapped) are "
+          "RE-READ from /repo on every run by a fail-closed ast reader (harness/narrow_caps.py -> Gen/NarrowCaps.v) and f(declared caps) <= "
+          "1000 is re-proved (C19_default_caps_within_1000; today 200, 128, 204, 204+204, 258, 258). For the Jolt loop over exact REALS (the "
+          "lead's Model/JoltLoop.v; real-number axioms): the loop continues only on a strict decrease of |v|^2 "
+          "(C19_jolt_continues_only_on_strict_decrease, with a concrete continuing step) and, PARTIAL, it never runs out of fuel if the "
+          "solver's values lie in a finite list (C19_jolt_terminates_if_finitely_many_values_partial; hypothesis true for polytopes by C18 but "
+          "not discharged; bound far above 1000). NOT A THEOREM: termination / the 1000 bound of the `while True` loops of gjk_distance_jolt, "
+          "gjk_intersection_jolt, gjk_distance_original and mpr._refine_portal in floating point - C19_uncapped_loops_unbounded proves that "
+          "their control structure admits any number of evaluations; liveness there is MONITORED only. MONITORED PER GENERATED PAIR and entry "
+          "point (10-12 per pair; self_collision.detect / detect_any on small BVHs): support evaluations <= 1000 and <= the proven bound of "
+          "the capped loops (counter wrapping support_function); 20 s alarm per call (a timeout / dead worker / numba cache race is re-run "
+          "alone with 120 s before it counts); every returned number finite except the documented MAX_FLOAT clip; no exception except EPA's "
+          "`n_faces < max_faces` assertion on smooth shapes (on a pair of polytopes with a full simplex the same assertion is a failure: no "
+          "finding is registered for it) - also when the same entry points run INTERPRETED (NUMBA_DISABLE_JIT=1, subset incl. primitive "
+          "pairs), where the statement coverage of the seven narrow-phase modules reached by the generators is measured and printed (85-96 "
+          "%); an interpreted batch of 1500 (quick) / 12000 (thorough) flat-ellipsoid primitive pairs runs both accelerated Nesterov loops "
+          "with NUMBA_DISABLE_JIT=1 (index errors / unchecked stores of the jitted loops are only observable there). Streams: D, aspect "
+          "ratios to 1e4, identical (copy / same object), nested, touching at 0, +-1e-12 .. 1e-4, zero-volume (vertex, segment, triangle, "
+          "planar hull, disk, ellipse), lattice placements, big meshes with a small collider in front of a face (F-M1), axis-aligned boxes / "
+          "cube meshes / cube hulls on a 0.25 grid (lattice_boxes), overlapping boxes / cubes in SYMMETRIC relative poses "
+          "(symmetric_polytopes: concentric or 0.25-grid offsets, one rotated by 30..180 degrees about an axis / face diagonal / space "
+          "diagonal: many faces of EPA's polytope visible at once in every order of the face array); corpus = F-J1 (fixed by 3066ace), F-M1, "
+          "F-L1 (5), F-N2 (6), F-P1 (fixed by fdadc7f) regressions. Known findings: F2-C19, narrowed to EPA after a GJK exit with n_points < 4 "
+          "whose returned work array contains UNINITIALISED rows (rows that are not differences of support points of that run; observed "
+          "exactly)."),
     design_ref="DESIGN.md section 5, C19",
-    technique="Coq proof that every capped narrow-phase loop makes at most f(caps) support evaluations for arbitrary oracles, caps and loop shapes re-extracted from the source each run (fail-closed ast reader); strict-decrease theorem for the Jolt loop over the reals; liveness/finiteness/exception policy monitored on generated degenerate inputs, compiled and interpreted",
-    note=TB + "; " + RA + " for the two Jolt theorems only; harness/narrow_caps.py (ast reader; NOT seen: calls through objects other than `<expr>.support_function`, dynamically bound names, callables passed as data); the support-evaluation counter wraps collider.support_function (the specialised Nesterov supports bypass it: there the returned iteration count is bounded instead)",
+    technique="Coq proof that every capped narrow-phase loop makes at most f(caps) support evaluations for arbitrary oracles, with caps and loop shapes re-extracted from the source each run (fail-closed ast reader); strict-decrease theorem for the Jolt loop over the reals; liveness / finiteness / exception policy of all entry points monitored on generated degenerate inputs, compiled and interpreted",
+    note=TB + "; " + RA + " for the two Jolt theorems only; harness/narrow_caps.py (ast reader; counts support evaluations through module-level callees and pins every counter; NOT seen: calls through objects other than `<expr>.support_function`, dynamically bound names, callables passed as data); the support-evaluation counter wraps collider.support_function (the specialised Nesterov supports bypass it: there the returned iteration count is bounded instead)",
 )
 
 CHECKS["C07"] = dict(
